@@ -2,6 +2,7 @@ package internal
 
 import (
 	"sync"
+	"sync/atomic"
 	"time"
 )
 
@@ -11,6 +12,11 @@ type EventTimer struct {
 	done  chan struct{}
 	wg    sync.WaitGroup
 	once  sync.Once
+
+	// armed counts the calls of Reset; fired is the count at the moment the expiry now being
+	// delivered (or delivered last) was taken from the timer.
+	armed atomic.Uint64
+	fired atomic.Uint64
 }
 
 func NewEventTimer(task func()) *EventTimer {
@@ -28,6 +34,7 @@ func NewEventTimer(task func()) *EventTimer {
 			select {
 
 			case <-t.timer.C:
+				t.fired.Store(t.armed.Load())
 				t.f()
 
 			case <-t.done:
@@ -53,10 +60,22 @@ func (t *EventTimer) Stop() {
 	t.wg.Wait()
 }
 
+// Stale reports whether the timer has been re-armed (or switched off) since the expiry whose task is
+// being run or was run last: the task may have been held up handing its event over, and by the time the
+// receiver looks at it the period it announces is no longer the one that counts.
+func (t *EventTimer) Stale() bool {
+	if t == nil {
+		return false
+	}
+	return t.fired.Load() != t.armed.Load()
+}
+
 func (t *EventTimer) Reset(timeout time.Duration) {
 	if t == nil {
 		return
 	}
+
+	t.armed.Add(1)
 
 	if timeout <= 0 {
 		// A zero (or negative) interval, e.g. HeartBtInt=0 taken from a Logon, means "no timer":
